@@ -232,7 +232,7 @@ class Body:
         if k == "discr":
             return ("discr", self.sym_place(rv["pl"], depth, through_vars))
         if k == "agg":
-            return ("agg", rv["ak"], tuple(self.sym_op(o, depth, through_vars) for o in rv["ops"]))
+            return ("agg", rv["ak"], tuple(self.sym_op(o, depth, through_vars) for o in rv["ops"]), tuple(rv.get("fields") or ()))
         if k == "repeat":
             return ("repeat", self.sym_op(rv["a"], depth, through_vars), rv["n"])
         return ("other", rv.get("txt"))
